@@ -95,7 +95,3 @@ func cmdVerify(args []string) {
 	fmt.Printf("%d obligations, %d not discharged\n", len(all), bad)
 }
 
-func cmdCheck(args []string) {
-	fmt.Println("not yet implemented")
-	os.Exit(2)
-}
